@@ -137,7 +137,7 @@ fn write_step<const CAP: usize>(read: usize, fill: usize) -> u8 {
     code
 }
 
-// @verif id=TX.write.a props=C19,C02,C03,C01,C10 tier=quick
+// @verif id=TX.write.a props=C19,C02,C03,C01 tier=quick
 // @functions UtpStreamWriteHalf::poll_write, ringbuf Producer::push_slice, utils::update_optional_waker
 // @bounds ring capacity 4 holding 2 bytes that straddle the wrap point (read index 3); EVERY combination of vsock_closed/writer_dropped/writer_shutdown; stale writer waker present or not; dispatcher parked; write of 0..=6 symbolic bytes
 // @asserts Ok(k): k == min(len, free) > 0, occupancy grows by k and stays <= capacity, bytes appended in order unaltered (checked at an arbitrary index), dispatcher woken; Pending only when full (or empty input) with the caller's waker registered; Err iff closed/shutdown/dropped, nothing buffered
@@ -151,7 +151,7 @@ fn tx_write_cap4_fill2() {
 }
 }
 
-// @verif id=TX.write.b props=C19,C02,C03,C10 tier=quick
+// @verif id=TX.write.b props=C19,C02,C03 tier=quick
 // @functions UtpStreamWriteHalf::poll_write
 // @bounds ring capacity 4 completely full; all flag combinations; write of 0..=6 bytes
 // @asserts back-pressure: Pending with the writer's waker registered, nothing buffered beyond the limit
@@ -164,7 +164,7 @@ fn tx_write_cap4_full() {
 }
 }
 
-// @verif id=TX.write.c props=C19,C02,C03,C01,C10 tier=quick
+// @verif id=TX.write.c props=C19,C02,C03,C01 tier=quick
 // @functions UtpStreamWriteHalf::poll_write
 // @bounds empty ring of capacity 4; all flag combinations; write of 0..=6 bytes
 // @asserts as TX.write.a (idle connection: the write wakes the dispatcher so it is transmitted at once)
@@ -213,7 +213,7 @@ fn flush_or_shutdown<const CAP: usize>(fill: usize, shutdown: bool) {
     std::mem::forget(tx);
 }
 
-// @verif id=TX.flush props=C03,C02,C10 tier=quick
+// @verif id=TX.flush props=C03,C02 tier=quick
 // @functions UtpStreamWriteHalf::poll_flush
 // @bounds ring capacity 4, empty or holding 2 bytes; all 8 flag combinations; stale waker or not
 // @asserts Ready(Ok) only with an empty ring; ring non-empty and connection dead => Ready(Err); never Pending once the connection is dead; Pending registers the caller's waker; buffered bytes untouched
@@ -228,7 +228,7 @@ fn tx_flush_all_flags() {
 }
 }
 
-// @verif id=TX.shutdown props=C03,C02,C17,C10 tier=quick
+// @verif id=TX.shutdown props=C03,C02,C17 tier=quick
 // @functions UtpStreamWriteHalf::poll_shutdown, UserTx::is_writer_shutdown
 // @bounds ring capacity 4, empty or holding 2 bytes; all 8 flag combinations; dispatcher parked
 // @asserts Ready(Ok) only with an empty ring (and only once the connection has closed); dead connection with bytes left => Err; Pending registers the caller's waker; a newly recorded shutdown request wakes the dispatcher; request recorded only when nothing is left unflushed
@@ -267,7 +267,7 @@ fn tx_shutdown_idle_wakes_dispatcher() {
 
 // ---- lifecycle wakes --------------------------------------------------------------------------
 
-// @verif id=TX.life props=C02,C03,C08,C10 tier=quick
+// @verif id=TX.life props=C02,C03,C08 tier=quick
 // @functions UtpStreamWriteHalf::drop, UserTxLocked::mark_writer_dropped, UserTx::mark_vsock_closed, UserTxLocked::mark_vsock_closed, UserTx::is_writer_dropped
 // @bounds writer dropped with the dispatcher parked; then the dispatcher marks the connection closed with a writer waker registered
 // @asserts drop wakes the dispatcher exactly once and sets writer_dropped; mark_vsock_closed wakes the blocked writer and sets the flag
@@ -364,7 +364,7 @@ fn grow_step(max: usize, check_followup_write: bool) {
     std::mem::forget(tx);
 }
 
-// @verif id=TX.grow.a props=C19,C01,C10 tier=quick timeout=900
+// @verif id=TX.grow.a props=C19,C01 tier=quick timeout=900
 // @functions UserTx::grow
 // @bounds ring capacity 4 holding 3 symbolic bytes across the wrap point (read index 2); max_size = 16 (doubling to 8)
 // @asserts new capacity == min(2*cap, max) > cap; every buffered byte survives in order (checked at an arbitrary index); occupancy unchanged; capacity <= max(initial, max)
@@ -376,7 +376,7 @@ fn tx_grow_doubles() {
 }
 }
 
-// @verif id=TX.grow.b props=C19,C01,C10 tier=quick timeout=900
+// @verif id=TX.grow.b props=C19,C01 tier=quick timeout=900
 // @functions UserTx::grow
 // @bounds as TX.grow.a with max_size = 6 (growth clamped to the maximum)
 // @asserts new capacity == 6; content and order preserved
@@ -388,7 +388,7 @@ fn tx_grow_clamped_to_max() {
 }
 }
 
-// @verif id=TX.grow.c props=C19,C10 tier=quick
+// @verif id=TX.grow.c props=C19 tier=quick
 // @functions UserTx::grow
 // @bounds as TX.grow.a with max_size in {3, 4} (at or below the current capacity)
 // @asserts None; capacity, occupancy and content unchanged
